@@ -302,7 +302,8 @@ def single_defs(fn_node) -> Dict[str, ast.AST]:
                     if comp is not None:
                         vals[e.id] = comp
         elif isinstance(n, ast.AnnAssign):
-            bump(n.target)
+            if n.value is not None:
+                bump(n.target)  # a bare annotation `x: T` binds nothing
             if isinstance(n.target, ast.Name) and n.value is not None:
                 vals[n.target.id] = n.value
         elif isinstance(n, ast.AugAssign):
